@@ -38,6 +38,9 @@ type Field struct {
 	Private bool     // register as non-public symbol
 	OnChild bool     // field lives in the child-store bucket (for child stores)
 	Derived bool     // maintained by an index / link collection: has a symbol and is read, never persisted by the strategy
+	// ApiName: the name callers know the field by. The entity strategy registers storage key -> ApiName on the persist
+	// context (PersistContext.WithFieldOverrides), a patch's field checker names the field by it
+	ApiName string
 	// NotNilMapped: the symbol is wrapped with Store.MapSymbol(name, NotNilStringMapper{}) (string fields)
 	NotNilMapped bool
 }
@@ -272,6 +275,22 @@ func (s *strategy) PersistEntity(e *Ent, ctx *boltz.PersistContext) {
 	}
 	if owner.Def.Ext {
 		e.Ext.SetBaseValues(octx)
+	}
+	overrides := map[*boltz.PersistContext]map[string]string{}
+	for _, f := range s.st.AllFields() {
+		if f.ApiName != "" && !f.Derived {
+			c := ctx
+			if def.Parent != "" && !f.OnChild {
+				c = pctx
+			}
+			if overrides[c] == nil {
+				overrides[c] = map[string]string{}
+			}
+			overrides[c][f.StoreKey()] = f.ApiName
+		}
+	}
+	for c, table := range overrides {
+		c.WithFieldOverrides(table)
 	}
 	for _, f := range s.st.AllFields() {
 		if f.Derived {
